@@ -389,10 +389,60 @@ def check_empty_sections(ev, fails):
                 ev.case(key=["empty-section", name, fl, D], nontrivial=bool(fl), labels=("empty-section:" + name,))
 
 
+# ---- values that are not strings: the first filter of the pipeline sees the value itself -----------------------------
+def ty(v):
+    return "%s:%s" % (type(v).__name__, v)
+
+
+USER["ty"] = ty
+IMPORTS.append("from vf.props.c02 import ty")
+
+
+def check_typed_values(ev, fails):
+    """default_filters=[] means no default filter at all (the first filter is handed an int as an int); None means ['str']"""
+    import markupsafe
+    from mako.lookup import TemplateLookup
+    from mako.template import Template
+
+    values = {"int": 5, "float": 2.5, "none": None, "markup": markupsafe.Markup("<b>"), "str": "<s>"}
+    k = 0
+    for D in (None, [], ["str"], ["ty"]):
+        for P in ([], ["ty"], ["n", "ty"]):
+            for local in ([], ["ty"], ["ty", "fa"], ["n", "ty"], ["h"]):
+                for vname, v in sorted(values.items()):
+                    for via in ("Template", "lookup"):
+                        k += 1
+                        Deff = ["str"] if D is None else D
+                        pipe = ref_pipeline(local, Deff, P)
+                        res = apply(pipe, v)
+                        if not isinstance(res, str):
+                            continue  # (what is written must be a string: without any filter that is the template author's business)
+                        exp = "[" + str(res) + "]"
+                        head = '<%%page expression_filter="%s"/>' % ", ".join(P) if P else ""
+                        text = head + "[${v" + ((" | " + ", ".join(local)) if local else "") + "}]"
+                        case = {"part": "typed-value", "D": D, "P": P, "local": local, "value": vname, "via": via}
+                        try:
+                            if via == "Template":
+                                t = Template(text, uri="/c02t_%d.html" % k, default_filters=D, imports=IMPORTS)
+                            else:
+                                lk = TemplateLookup(default_filters=D, imports=IMPORTS)
+                                lk.put_string("/c02t_%d.html" % k, text)
+                                t = lk.get_template("/c02t_%d.html" % k)
+                            got = t.render_unicode(v=v)
+                        except Exception as e:  # noqa: BLE001
+                            got = "%s: %s" % (type(e).__name__, str(e)[:100])
+                        if got != exp:
+                            f = Failure(case, "%s(default_filters=%r), template %r, v=%r: rendered %r, the pipeline %r applied to the value gives %r"
+                                        % (via, D, text, v, got, pipe, exp), "typed-value:default_filters-%s" % ("none" if D is None else "-".join(D) or "empty"))
+                            fails.setdefault(f.key, f)
+                        ev.case(key=["typed-value", D, P, local, vname, via], nontrivial=D == [] or bool(P), labels=("typed-value",))
+
+
 def run(ctx):
     efails = {}
     core.setup_repo()
     check_empty_sections(ctx.ev, efails)
+    check_typed_values(ctx.ev, efails)
     for f in efails.values():
         ctx.fail(f)
     tasks = [(0, 0, 1), (1, 0, 1)] + [(2, i, 4) for i in range(4)]
@@ -407,6 +457,10 @@ def run(ctx):
 
 def replay(case):
     core.setup_repo()
+    if case.get("part") == "typed-value":
+        fails = {}
+        check_typed_values(core.Evidence(), fails)
+        return next((f for f in fails.values() if f.case["D"] == case["D"]), None)
     if case.get("part") == "empty-section":
         fails = {}
         check_empty_sections(core.Evidence(), fails)
